@@ -1,19 +1,35 @@
 /- GENERATED: instance obligations for one logic, discharged by kernel evaluation.
-   `X ⊆ known`: every failing row is a committed known finding (Ptx/Gen/Known.lean). -/
+   `S` = the logic with its DOCUMENTED tables (Ptx/Sem/Spec.lean); rules, closure, trunk and frames
+   are what the translator read off the code.  `X ⊆ known`: every failing row is a committed
+   known finding (Ptx/Gen/Known.lean, generated from known_findings.json). -/
 import Ptx.Gen.L_T
 import Ptx.Gen.Known
 import Ptx.Sem.Subset
+import Ptx.Props.C01
+import Ptx.Gen.L_CFOL
 namespace Ptx.Gen.Obl.T
 open Ptx
 
-theorem tables_total : Gen.T.tablesTotalB = true := by decide +kernel
-theorem rules_exact : subsetB Gen.T.badRules (Known.badRules "T") = true := by decide +kernel
-theorem rules_sound : subsetB Gen.T.unsoundRules (Known.unsoundRules "T") = true := by decide +kernel
-theorem rules_total : subsetB Gen.T.missingRules (Known.missingRules "T") = true := by decide +kernel
-theorem rules_local : Gen.T.nonLocalRules = [] := by decide +kernel
-theorem closure_total : Gen.T.closureTotalB = true := by decide +kernel
-theorem closure_exact : subsetB Gen.T.badClosure (Known.badClosure "T") = true := by decide +kernel
-theorem read_total : Gen.T.readTotalB = true := by decide +kernel
-theorem read_exact : subsetB Gen.T.badRead (Known.badRead "T") = true := by decide +kernel
+/-- a modal / first-order extension has exactly the truth-functional tables of its base (CFOL) -/
+theorem base_tables : Gen.T.tables.sameTF Gen.CFOL.tables = true := by decide +kernel
+theorem spec_defined : Gen.T.specDefinedB = true := by decide +kernel
+theorem tables_spec : subsetB Gen.T.tableDiff (Known.tableDiff "T") = true := by decide +kernel
+theorem defined_ops : Gen.T.tables.definedOpsBad = [] := by decide +kernel
+theorem tables_total : Gen.T.sem.tablesTotalB = true := by decide +kernel
+theorem rules_exact : subsetB Gen.T.sem.badRules (Known.badRules "T") = true := by decide +kernel
+theorem rules_sound : subsetB Gen.T.sem.unsoundRules (Known.unsoundRules "T") = true := by decide +kernel
+theorem rules_total : subsetB Gen.T.sem.missingRules (Known.missingRules "T") = true := by decide +kernel
+theorem rules_local : Gen.T.sem.nonLocalRules = [] := by decide +kernel
+theorem closure_total : Gen.T.sem.closureTotalB = true := by decide +kernel
+theorem closure_exact : subsetB Gen.T.sem.badClosure (Known.badClosure "T") = true := by decide +kernel
+theorem read_total : Gen.T.sem.readTotalB = true := by decide +kernel
+theorem read_exact : subsetB Gen.T.sem.badRead (Known.badRead "T") = true := by decide +kernel
+theorem sound_core : Gen.T.sem.soundCoreB = true := by decide +kernel
+
+/-- C01 for this logic: a closed tableau reached by any legal derivation has no countermodel. -/
+theorem c01_valid_sound (arg : Argument) (t : Tableau)
+    (hd : Deriv Gen.T.sem.soundPart.noQuantPart (trunk Gen.T.sem arg) t) (hclosed : t.allClosed = true)
+    (M : Struct) (hM : M.Interp Gen.T.sem) (e : Env M.D) (w0 : M.W) : ¬ Countermodel Gen.T.sem M e w0 arg :=
+  Props.C01.C01_valid_sound_partial Gen.T.sem sound_core arg t hd hclosed M hM e w0
 
 end Ptx.Gen.Obl.T
